@@ -87,4 +87,22 @@ TEXTS["C19"] = {
     "note": TB,
     "technique": "Lean 4 theorems over the executable pool model + differential correspondence + no-loss monitor",
 }
+TEXTS["C09"] = {
+    "text": "Proved on the model of PersistExecutionResult and the getters for every consistent node and every block: the persisted block has height head+1 and the previous head hash as parent, the chain meta names "
+            "it with the cumulative interchain count (C09_persist_links), it is found by height in both modes, by hash, by the height index, with its interchain meta and tx count (C09_persist_lookup), consistency "
+            "is preserved and the append never goes out of order (C09_persist_consistent, C09_persist_total). Rollback cleaning and tx/receipt lookups are decided by model correspondence on the real "
+            "ledger (LevelDB + blockfile) and a model-free monitor that queries every getter for every known height/hash/tx after rollbacks. Two defects found here were repaired by fix: commits (GetBlockHash decoding; "
+            "stale block-height entry after rollback).",
+    "note": TB + " Block hashes are symbolic in the model; header hashing and the Merkle roots are covered by C10.",
+    "technique": "Lean 4 theorems over the executable chain-store model + differential correspondence + exhaustive getter monitor",
+}
+TEXTS["C11"] = {
+    "text": "Proved for every height h>=1 and every mask of the durable writes of one block commit (state batch, chain-index batch, 0..5 blockfile tables): recovery succeeds IF AND ONLY IF everything is durable or "
+            "neither the chain-index batch nor the complete blockfile append is (C11_recover_iff), with the three unrecoverable classes characterised (C11_state_behind_chain_index, C11_blockfile_ahead, "
+            "C11_chain_index_ahead) and the full clause refuted by a machine-checked counter-example (C11_always_recovers_false). The abstract recovery model is cross-checked in the driver against the concrete "
+            "chain/blockfile/state model, which is run against the real stores: every admissible mask is assembled from before/after copies of the real LevelDB and blockfile directories at 6 (thorough: 11) heights "
+            "incl. journal-pruning ones, reopened with the real ledger.New and continued. The three bad classes are genuine defects recorded as known findings (no small safe repair: needs a commit record).",
+    "note": TB + " LevelDB batch atomicity and blockfile repair semantics are assumed (a table append is fully there or absent after repair); fsync ordering inside a store is not modelled.",
+    "technique": "Lean 4 iff-characterisation over the crash-mask model + exhaustive crash injection on the real stores (correspondence)",
+}
 NOT_YET = {}
